@@ -15,7 +15,7 @@
 From Coq Require Import List ZArith NArith Bool.
 Import ListNotations.
 From SAV.sql Require Import Val3 InList.
-From SAV.orm Require Import Evaluator EvaluatorProofs EvaluatorSyncProofs EvaluatorRefuted.
+From SAV.orm Require Import Evaluator EvaluatorProofs EvaluatorSyncProofs EvaluatorRefuted FetchSync FetchSyncProofs.
 
 (* MAIN: on the typed and guarded fragment the evaluator computes exactly the SQL value, for expression
    trees of any depth *)
@@ -58,6 +58,48 @@ Theorem c43_delete_in_sync_guarded : forall sc crit r,
   delete_obj sc crit (obj_of r) = if delete_row crit r then DRemoved else DKeep (obj_of r).
 Proof. exact delete_in_sync. Qed.
 Print Assumptions c43_delete_in_sync_guarded.
+
+(* ---- synchronize_session='fetch' ---- *)
+(* the identity keys built from the RETURNING rows are the mapper-order keys of the rows, for EVERY order
+   (any list of primary key columns) of mapper.primary_key relative to the table's PRIMARY KEY *)
+Theorem c43_fetch_keys_mapper_order : forall m rows,
+  m.(sub_table) = false -> incl m.(mpk) m.(tpk) ->
+  interpret_returning_rows m (map (returning_row m) rows) = map (identity_of m) rows.
+Proof. exact interpret_returning_rows_mapper_order. Qed.
+Print Assumptions c43_fetch_keys_mapper_order.
+
+(* with or without RETURNING, exactly the objects of the selected rows are synchronised *)
+Theorem c43_fetch_matches_selected : forall m ur crit db r,
+  m.(sub_table) = false -> incl m.(mpk) m.(tpk) -> keys_distinct m db -> In r db ->
+  in_keys m (fetch_keys m ur crit db) r = selected crit r.
+Proof. exact in_keys_iff_selected. Qed.
+Print Assumptions c43_fetch_matches_selected.
+
+(* UPDATE / DELETE with 'fetch' keep the objects in sync for ANY criterion (no guard on crit: the database
+   evaluates it); only the SET expressions are evaluated in Python *)
+Theorem c43_fetch_update_in_sync : forall sc m ur crit sets db r,
+  m.(sub_table) = false -> incl m.(mpk) m.(tpk) -> keys_distinct m db -> In r db ->
+  row_ok sc r -> targets_distinct sets = true -> sets_independent sets = true -> forallb (set_ok sc r) sets = true ->
+  exists o', fetch_update_obj sc m (fetch_keys m ur crit db) sets r = OOk o' /\
+             forall c, o' c = obj_of (update_row crit sets r) c.
+Proof. exact fetch_update_in_sync. Qed.
+Print Assumptions c43_fetch_update_in_sync.
+Theorem c43_fetch_delete_in_sync : forall m ur crit db r,
+  m.(sub_table) = false -> incl m.(mpk) m.(tpk) -> keys_distinct m db -> In r db ->
+  fetch_delete_obj m (fetch_keys m ur crit db) r = if delete_row crit r then DRemoved else DKeep (obj_of r).
+Proof. exact fetch_delete_in_sync. Qed.
+Print Assumptions c43_fetch_delete_in_sync.
+
+(* non-vacuity and the reason the order matters: for identity (u, g) on a table keyed (g, u), reading the
+   RETURNING row in table order gives the identity of the MIRRORED row *)
+Example c43_ex_table_order_is_not_identity_order :
+  let m := {| tpk := [0%nat; 1%nat]; mpk := [1%nat; 0%nat]; sub_table := false |} in
+  let r1 : row := fun c => match c with 0%nat => SInt 1 | 1%nat => SInt 2 | _ => SNull end in
+  let r2 : row := fun c => match c with 0%nat => SInt 2 | 1%nat => SInt 1 | _ => SNull end in
+  tuple_getter m.(tpk) (returning_row m r1) = Some (identity_of m r2) /\
+  identity_of m r1 <> identity_of m r2 /\
+  interpret_returning_rows m [returning_row m r1] = [identity_of m r1].
+Proof. exact table_order_is_not_identity_order. Qed.
 
 (* ---- the excluded regions are genuinely defective: session <> database (all reproduced on the code) ---- *)
 Theorem c43_mod_negative_refuted : exists sc e r,
